@@ -354,8 +354,43 @@ func ruleScalarStore(c *Ctx) {
 				continue
 			}
 			stored := true
+			// blocks that store to the target; a success return is fine when it cannot be
+			// reached from the entry without passing one of them (a store in every arm of
+			// a switch counts, not only a dominating one)
+			storing := map[*ssa.BasicBlock]bool{}
+			for _, d := range f.Blocks {
+				for _, in := range d.Instrs {
+					switch x := in.(type) {
+					case *ssa.Store:
+						if rr := rootOf(x.Addr); rr.kind == rkParam && isPtrParam(f, rr.base) {
+							storing[d] = true
+						}
+					case *ssa.Call:
+						for _, ar := range x.Common().Args {
+							if rr := rootOf(ar); rr.kind == rkParam && isPtrParam(f, rr.base) {
+								storing[d] = true
+							}
+						}
+					}
+				}
+			}
+			reachNoStore := map[*ssa.BasicBlock]bool{}
+			if !storing[f.Blocks[0]] {
+				reachNoStore[f.Blocks[0]] = true
+				work := []*ssa.BasicBlock{f.Blocks[0]}
+				for len(work) > 0 {
+					bb := work[len(work)-1]
+					work = work[:len(work)-1]
+					for _, sc := range bb.Succs {
+						if !storing[sc] && !reachNoStore[sc] {
+							reachNoStore[sc] = true
+							work = append(work, sc)
+						}
+					}
+				}
+			}
 			for _, a := range anchors {
-				storedA := false
+				storedA := !reachNoStore[a]
 				for _, d := range f.Blocks {
 					if !(d == a || d.Dominates(a)) {
 						continue
